@@ -95,6 +95,20 @@ int main(int argc, char **argv) {
   if (!strcmp(m, "pause")) {
     for (;;) pause();
   }
+  if (!strcmp(m, "stopcont") && argc >= 4) {
+    // job-control stop of the main process, continued by a child a little later, then the chosen ending
+    pid_t me = getpid();
+    pid_t c = fork();
+    if (c == 0) {
+      usleep(100000);
+      kill(me, SIGCONT);
+      _exit(0);
+    }
+    syscall(SYS_kill, me, SIGSTOP);
+    int st;
+    waitpid(c, &st, 0);
+    act(argv[2], argv[3]);
+  }
   if (!strcmp(m, "child") && argc >= 8) {
     const char *when = argv[2];
     int p[2];
